@@ -10,6 +10,7 @@ from engine.lib import Injected, make_scheduler
 from engine.ticktime import TickVTS
 
 BOOM = Injected("periodic")
+EXTRA_MODULES = ["harness.C35gt"]  # the threaded schedulers under a controlled clock (gate threads)
 
 
 def concretize(x, lo, hi):
@@ -23,24 +24,28 @@ def _inst(tier):
     return [{"kind": k} for k in ("test", "vts", "catch_true", "catch_false", "hist")]
 
 
-@harness(instances=_inst, p=I(1, 4), D=I(0, 14), k=I(0, 5), timeout=(120, 900))
+def _pre(a, inst):
+    return a.e < a.p
+
+
+@harness(instances=_inst, pre=_pre, p=I(1, 4), D=I(0, 14), k=I(0, 5), e=I(0, 2), timeout=(150, 900))
 def h_periodic(a, inst):
     """period p, dispose at relative time D (0 = never within the horizon), the action raises at its k-th call (0 = never).
-    Expected: call j happens at j*p with the state returned by call j-1 (initial state 0, action returns state+1); nothing after
+    Each call consumes e < p units of scheduler time (sleep).  Expected: call j happens at j*p with the state returned by call j-1 (initial state 0, action returns state+1); nothing after
     the dispose instant (a call due exactly at D comes after the dispose action, which was scheduled first); nothing after a raise"""
     kind = inst["kind"]
     calls = []
     handled = []
     stock = os.environ.get("VERIF_STOCK") == "1"
     if kind == "hist":
-        p, D, k = concretize(a.p, 1, 4), concretize(a.D, 0, 14), concretize(a.k, 0, 5)
+        p, D, k, e = concretize(a.p, 1, 4), concretize(a.D, 0, 14), concretize(a.k, 0, 5), concretize(a.e, 0, 2)
         sch = HistoricalScheduler()
         base = sch
         clock = lambda: (sch.clock - UTC_ZERO).total_seconds()  # noqa: E731
         R = lambda s: timedelta(seconds=s)  # noqa: E731
         A = lambda s: UTC_ZERO + timedelta(seconds=s)  # noqa: E731
     else:
-        p, D, k = a.p, a.D, a.k
+        p, D, k, e = a.p, a.D, a.k, a.e
         base = make_scheduler() if kind != "vts" else (VirtualTimeScheduler() if stock else TickVTS())
         sch = base
         clock = lambda: base.clock  # noqa: E731
@@ -59,6 +64,8 @@ def h_periodic(a, inst):
         calls.append((clock(), state))
         if k and len(calls) == k:
             raise BOOM
+        if e:
+            base.sleep(R(e))  # the action consumes e < p units of the scheduler's time: the next call is still due at (j+1)*p
         return state + 1
 
     disp = [None]
@@ -97,18 +104,27 @@ def h_periodic(a, inst):
 
 
 ENCODED = ["reactivex/scheduler/periodicscheduler.py", "reactivex/scheduler/catchscheduler.py", "reactivex/scheduler/virtualtimescheduler.py",
-           "reactivex/observable/interval.py", "reactivex/observable/timer.py"]
-BOUNDS = {"quick": "period in [1,4], dispose at 1..14 ticks or never, raise at the k-th call (k in 1..5) or never, horizon 15 ticks; "
+           "reactivex/scheduler/newthreadscheduler.py", "reactivex/scheduler/eventloopscheduler.py", "reactivex/scheduler/timeoutscheduler.py",
+           "reactivex/scheduler/threadpoolscheduler.py", "reactivex/observable/interval.py", "reactivex/observable/timer.py"]
+BOUNDS = {"quick": "period in [1,4], each call consuming 0..2 (< period) ticks of scheduler time, dispose at 1..14 ticks or never, raise at "
+                   "the k-th call (k in 1..5) or never, horizon 15 ticks; "
                    "TestScheduler and VirtualTimeScheduler (symbolic, Tick stub), CatchScheduler with handler verdict True/False over "
-                   "them, HistoricalScheduler (datetime clock, values realised by branching); interval/periodic timers: C37",
-          "thorough": "same with the thorough budget"}
+                   "them, HistoricalScheduler (datetime clock, values realised by branching); interval/periodic timers: C37.  Threaded "
+                   "part (gate threads, controlled clock): EventLoop / NewThread / ThreadPool / Timeout schedulers and CatchScheduler "
+                   "(verdict True / False) over an event loop, period 1..2 s, call duration 0..period, dispose after 1..4 s from a "
+                   "client thread, raise at call 1..2 or never, 1 preemption (coarse yield points; 'time passes' moves)",
+          "thorough": "same with the thorough budget; threaded part: 5 (period, duration) pairs, 2 ordered preemptions"}
 ASSUMES = ["Tick/Span time stub for the numeric schedulers", "a call due exactly at the dispose instant does not happen (the dispose action "
-           "was scheduled first: FIFO, C28)", "event-loop / new-thread periodic scheduling under a controlled clock is checked by the "
-           "gate-thread jobs of this property when present; otherwise it is outside this check"]
+           "was scheduled first: FIFO, C28)", "threaded part: threading.Timer / Event / Condition / Lock and ThreadPoolExecutor are gate-aware contract stubs on a "
+           "controlled clock; 'exactly at k*period' is required of the undisturbed run, 'never before k*period' of every schedule; a "
+           "single call already past its disposed-check on another thread when dispose() runs may still start (cancelling a call in "
+           "flight is not claimed)"]
 MANIFEST = {
+    "engine": "XH+GT",
     "text": "Bounded symbolic model checking of PeriodicScheduler.schedule_periodic and CatchScheduler.schedule_periodic on the real "
             "virtual-time schedulers: period, dispose time and raise position are solver variables; invocation times and threaded "
             "states must equal k*period / k-1, nothing may run after dispose or after a raise, and the handler verdict decides "
-            "whether the exception escapes.",
-    "note": "virtual-time schedulers only in this check; horizon 15 ticks.",
+            "whether the exception escapes.  Threaded schedulers: gate-serialised real threads on a controlled clock with the "
+            "dispose time, raise position and preemption schedule as solver variables.",
+    "note": "horizon 15 ticks (virtual); 1..4 s, P<=1 (threaded, quick).",
 }
